@@ -16,7 +16,8 @@
 //	                 entry=<E>/class=fatal/<runtime message>       other fatal death (concurrent map ...)
 //	inconclusive:    wall-clock watchdog, out of memory (C09's topic), child killed
 //
-// Development aids (not part of the check): C08_CASES=<n> smaller run, C08_PROBES=1 with it keeps the
+// Development aids (not part of the check): C08_CORE_ONLY=1 runs only the core set (core.go),
+// C08_NOCORE=1 leaves it out, C08_CORE_REPORT=1 prints every call of a core case, C08_CORE_DUMP=<dir> writes the core inputs; C08_CASES=<n> smaller run, C08_PROBES=1 with it keeps the
 // scale probes, C08_TIMING=1 per-batch times, C08_TRIAGE=<replay file> runs the stored call in this
 // process without recover (full trace with file:line), VERIF_KEEP=1 keeps the batch directories.
 package main
@@ -59,6 +60,19 @@ func main() {
 		triageMain(f)
 		return
 	}
+	if d := os.Getenv("C08_CORE_DUMP"); d != "" { // triage aid: the inputs of the core set as files
+		_ = os.MkdirAll(d, 0o755)
+		for _, c := range coreCases() {
+			name := strings.Map(func(r rune) rune {
+				if r == '/' || r == ' ' || r == ':' {
+					return '_'
+				}
+				return r
+			}, head(c.Desc, 80))
+			_ = os.WriteFile(filepath.Join(d, fmt.Sprintf("%d-%s.pdf", c.ID, strings.TrimSuffix(name, "…"))), c.In, 0o644)
+		}
+		return
+	}
 	vk.Run("C08", "exploration", run)
 }
 
@@ -83,6 +97,7 @@ type candidate struct {
 	call  int
 	entry string
 	why   string
+	loop  string // watchdogLoop of the first excess ("" for kills)
 }
 
 type agg struct {
@@ -165,6 +180,16 @@ func run(t *vk.T) {
 		}
 	}
 	nBatches := (nCases + batchSize - 1) / batchSize
+	// the core set (core.go): the same cases in every run, queued first so that a budget excess there
+	// overlaps with the seeded batches
+	var core []*genCase
+	if os.Getenv("C08_NOCORE") == "" {
+		core = coreCases()
+	}
+	if os.Getenv("C08_CORE_ONLY") != "" {
+		nCases, nBatches = 0, 0
+	}
+	nCoreBatches := (len(core) + coreBatchSize - 1) / coreBatchSize
 	workers := runtime.GOMAXPROCS(0) / 2
 	if workers < 1 {
 		workers = 1
@@ -176,6 +201,11 @@ func run(t *vk.T) {
 		go func() {
 			defer wg.Done()
 			for b := range next {
+				if b < 0 { // core batch -b-1
+					cb := -b - 1
+					r.runBatch(fmt.Sprintf("core%04d", cb), core[cb*coreBatchSize:min((cb+1)*coreBatchSize, len(core))], 1, -1)
+					continue
+				}
 				lo, hi := b*batchSize, min((b+1)*batchSize, nCases)
 				cases := make([]*genCase, 0, hi-lo)
 				t0 := time.Now()
@@ -189,6 +219,9 @@ func run(t *vk.T) {
 				}
 			}
 		}()
+	}
+	for cb := 0; cb < nCoreBatches; cb++ {
+		next <- -cb - 1
 	}
 	for b := 0; b < nBatches; b++ {
 		next <- b
@@ -227,11 +260,38 @@ func run(t *vk.T) {
 		}
 		return cands[i].call < cands[j].call
 	})
+	// Candidates are grouped by (entry point, what the call was busy with when the watchdog fired): the
+	// members of a group are re-run one after the other until one of them is confirmed (the others
+	// could only repeat that verdict); different groups are re-run by up to 6 children at a time (CPU
+	// time is accounted per process).
+	byEntry := map[string][]int{}
+	var order []string
 	for i, cd := range cands {
-		c := cd.c
-		c.In = cd.in
-		r.runBatch(fmt.Sprintf("cand%04d", i), []*genCase{&c}, 2, cd.call)
+		g := cd.entry + "|" + cd.loop
+		if _, ok := byEntry[g]; !ok {
+			order = append(order, g)
+		}
+		byEntry[g] = append(byEntry[g], i)
 	}
+	sem := make(chan struct{}, 6)
+	var cw sync.WaitGroup
+	for _, e := range order {
+		cw.Add(1)
+		go func(idx []int) {
+			defer cw.Done()
+			sem <- struct{}{}
+			defer func() { <-sem }()
+			for n, i := range idx {
+				c := cands[i].c
+				c.In = cands[i].in
+				if r.runBatch(fmt.Sprintf("cand%04d", i), []*genCase{&c}, 2, cands[i].call) > 0 {
+					r.ag.add("cpu_candidates_covered_by_confirmed_key", int64(len(idx)-n-1))
+					return
+				}
+			}
+		}(byEntry[e])
+	}
+	cw.Wait()
 	if r.isFailed() {
 		t.Broken("%s", r.failed)
 	}
@@ -281,6 +341,9 @@ func readLog(path string) []rec {
 	return out
 }
 
+// coreReport (development aid): one line per call of a core case with the error text.
+var coreReport = os.Getenv("C08_CORE_REPORT") != ""
+
 var reFatal = regexp.MustCompile(`(?m)^fatal error: (.*)$`)
 
 // classifyDeath turns the child's stderr / exit status into (status, detail).
@@ -319,12 +382,12 @@ func classifyDeath(stderr string, exitCode int, killedByUs bool) (st, detail str
 
 // runBatch runs the cases in child processes (restarting after a fatal death) and judges the log.
 // only >= 0: run exactly that call of the single case (candidate re-run / replay), ungated.
-func (r *runner) runBatch(name string, cases []*genCase, mult, only int) {
+func (r *runner) runBatch(name string, cases []*genCase, mult, only int) (violations int) {
 	t := r.t
 	dir := filepath.Join(r.root, name)
 	if err := os.MkdirAll(filepath.Join(dir, "in"), 0o755); err != nil {
 		r.fail("%v", err)
-		return
+		return 0
 	}
 	if os.Getenv("VERIF_KEEP") == "" {
 		defer os.RemoveAll(dir)
@@ -341,14 +404,14 @@ func (r *runner) runBatch(name string, cases []*genCase, mult, only int) {
 		mf.Cases = append(mf.Cases, cc)
 		if err := os.WriteFile(filepath.Join(dir, "in", strconv.Itoa(c.ID)+".bin"), c.In, 0o644); err != nil {
 			r.fail("%v", err)
-			return
+			return 0
 		}
 	}
 	mf.Ungated = only >= 0
 	mb, _ := json.Marshal(mf)
 	if err := os.WriteFile(filepath.Join(dir, "manifest.json"), mb, 0o644); err != nil {
 		r.fail("%v", err)
-		return
+		return 0
 	}
 
 	type death struct {
@@ -357,6 +420,7 @@ func (r *runner) runBatch(name string, cases []*genCase, mult, only int) {
 		stderr     string
 	}
 	var deaths []death
+	loops := map[[2]int]string{} // (case, call) -> what the call was doing when the CPU watchdog fired
 	start := "0,0,0,0"
 	totalCalls := 0
 	for _, c := range mf.Cases {
@@ -367,7 +431,7 @@ func (r *runner) runBatch(name string, cases []*genCase, mult, only int) {
 		ef, err := os.Create(errFile)
 		if err != nil {
 			r.fail("%v", err)
-			return
+			return 0
 		}
 		cmd := exec.Command(os.Args[0])
 		cmd.Env = append(os.Environ(), "C08_CHILD="+dir, "C08_START="+start, "GOMAXPROCS=2", "GOGC=100", "GOTRACEBACK=single")
@@ -375,7 +439,7 @@ func (r *runner) runBatch(name string, cases []*genCase, mult, only int) {
 		if err := cmd.Start(); err != nil {
 			ef.Close()
 			r.fail("start child: %v", err)
-			return
+			return 0
 		}
 		done := make(chan error, 1)
 		go func() { done <- cmd.Wait() }()
@@ -403,7 +467,7 @@ func (r *runner) runBatch(name string, cases []*genCase, mult, only int) {
 		}
 		if code == exitHarness {
 			r.fail("child of %s reported a harness failure: %s", name, tail(stderr, 1500))
-			return
+			return 0
 		}
 		// the call during which it died: last B without E (watchdog exits write their own E)
 		log := readLog(filepath.Join(dir, "log"))
@@ -428,6 +492,7 @@ func (r *runner) runBatch(name string, cases []*genCase, mult, only int) {
 		}
 		if code == exitCPU || code == exitWall {
 			// judged from the E record below
+			loops[[2]int{ci, ki}] = watchdogLoop(stderr)
 		} else {
 			st, detail := classifyDeath(stderr, code, killed)
 			if !open {
@@ -452,6 +517,12 @@ func (r *runner) runBatch(name string, cases []*genCase, mult, only int) {
 			}
 		}
 		nci, nki := ci, ki+1
+		if mf.Cases[ci].NoGate && only < 0 && nki >= nFixedPDF {
+			// core-struct case: after a budget excess or a death the remaining structure-specific entry
+			// points of THIS case are not run (they would spend the same budget on the same loop; the
+			// plans are rotated over the shapes of a family so that every entry point comes first somewhere)
+			nki = len(mf.Cases[ci].Plan)
+		}
 		if nki >= len(mf.Cases[ci].Plan) {
 			nci, nki, readOK, validOK = ci+1, 0, false, false
 		}
@@ -524,6 +595,7 @@ func (r *runner) runBatch(name string, cases []*genCase, mult, only int) {
 				r.ag.add("child_deaths/"+d.st, 1)
 				switch d.st {
 				case "stack-overflow":
+					violations++
 					t.Violate("entry="+entry+"/class=stack-overflow/cycle="+d.detail,
 						fmt.Sprintf("%s exhausted the %d MB goroutine stack (fatal error: stack overflow, recursion through %s) on %s", entry, maxStackBytes>>20, d.detail, where), rc(ki, entry))
 				case "oom":
@@ -532,13 +604,15 @@ func (r *runner) runBatch(name string, cases []*genCase, mult, only int) {
 					t.Inconclusive("child-killed/entry=" + entry + "/" + d.detail)
 					if only < 0 {
 						r.ag.mu.Lock()
-						r.ag.candidates = append(r.ag.candidates, candidate{*c, c.In, ki, entry, "killed"})
+						r.ag.candidates = append(r.ag.candidates, candidate{*c, c.In, ki, entry, "killed", ""})
 						r.ag.mu.Unlock()
 					}
 				case "goroutine-panic":
+					violations++
 					t.Violate("entry="+entry+"/panic="+d.detail,
 						fmt.Sprintf("%s: unrecoverable panic killed the process (%s) on %s", entry, firstLineWith(d.stderr, "panic: "), where), rc(ki, entry))
 				case "fatal":
+					violations++
 					t.Violate("entry="+entry+"/class=fatal/"+d.detail,
 						fmt.Sprintf("%s: the runtime aborted the process (fatal error: %s, innermost pdfcpu frame %s) on %s", entry, d.detail, deathFrame(d.stderr), where), rc(ki, entry))
 				default:
@@ -548,6 +622,9 @@ func (r *runner) runBatch(name string, cases []*genCase, mult, only int) {
 				continue
 			}
 			outcome = append(outcome, entry+":"+res.St)
+			if coreReport && strings.HasPrefix(c.Kind, "core-") {
+				fmt.Fprintf(os.Stderr, "c08 core: %-60s %-22s %-5s %5dms %s\n", head(c.Desc, 60), entry, res.St, res.CPUms, res.Err)
+			}
 			if res.CPUms >= 1000 {
 				r.ag.noteSlow(slowCall{entry, res.CPUms, c.Kind, len(c.In), c.ID})
 			}
@@ -570,23 +647,25 @@ func (r *runner) runBatch(name string, cases []*genCase, mult, only int) {
 				if res.Fault {
 					what = "(a fault.Panic that no fault.Catch converted) " + what
 				}
+				violations++
 				t.Violate("entry="+entry+"/panic="+res.Frame, what, rc(ki, entry))
 			case "cpu":
 				if mult >= 2 {
+					violations++
 					t.Violate("entry="+entry+"/class=cpu-bound",
-						fmt.Sprintf("%s used more than %v CPU (second run, alone, twice the budget of %v per 256 KB) on %s", entry, budgetFor(len(c.In), mult), cpuBudgetPer256K, where), rc(ki, entry))
+						fmt.Sprintf("%s used more than %v CPU (second run, alone, twice the budget of %v per 256 KB; busy in %s) on %s", entry, budgetFor(len(c.In), mult), cpuBudgetPer256K, loops[[2]int{ci, ki}], where), rc(ki, entry))
 					r.ag.add("cpu_bound_confirmed", 1)
 				} else {
 					r.ag.add("cpu_candidates", 1)
 					r.ag.mu.Lock()
-					r.ag.candidates = append(r.ag.candidates, candidate{*c, c.In, ki, entry, "cpu"})
+					r.ag.candidates = append(r.ag.candidates, candidate{*c, c.In, ki, entry, "cpu", loops[[2]int{ci, ki}]})
 					r.ag.mu.Unlock()
 				}
 			case "wall":
 				t.Inconclusive("wall-watchdog/entry=" + entry)
 				if mult < 2 {
 					r.ag.mu.Lock()
-					r.ag.candidates = append(r.ag.candidates, candidate{*c, c.In, ki, entry, "wall"})
+					r.ag.candidates = append(r.ag.candidates, candidate{*c, c.In, ki, entry, "wall", loops[[2]int{ci, ki}]})
 					r.ag.mu.Unlock()
 				}
 			}
@@ -619,6 +698,7 @@ func (r *runner) runBatch(name string, cases []*genCase, mult, only int) {
 			t.Sample(map[string]any{"case": c.ID, "kind": c.Kind, "bytes": len(c.In), "desc": c.Desc, "outcome": outcome})
 		}
 	}
+	return violations
 }
 
 func tail(s string, n int) string {
